@@ -38,6 +38,7 @@ Inv_C04 == C04_NoDangling(s)
 Inv_C05 == C05_ReadOk(s)
 Inv_C07 == C07_QuiescentExact(s)
 Inv_C15 == C15_LockOrderAcyclic(s)
+Inv_C03x == C03x_KillSafe(s)
 Live_C15 == <>[](AllDone(s))
 \* the ghost edge set and the read monitor do not influence behaviour
 View == [s EXCEPT !.edges = {}]   \* hist is not part of the view
